@@ -44,12 +44,17 @@ class C04(Prop):
         "PylifeVerif.C04.hcm_prepend_nonreversal_code",
     ]
     PARTIAL = {"PylifeVerif.C04.pass2_eq_periodicRainflow_partial": "for the code as it is, 'pass 2 = closed cycles of the repeated sequence' is proved under the decidable guard C04.FirstRunFlushes (the first run flushes its last sample); without it the statement is refuted in the kernel at [500,200,400,100] (pass2_eq_periodicRainflow_fails_at_witness) - the open known finding first-run-defers-last-sample. The full statement is proved for the repaired variant twoPassR (pass2_eq_periodicRainflow), and twoPass = twoPassR under the guard (twoPass_eq_twoPassR)."}
-    RULE = ("case = load sequence (>= 2 distinct values) for one assessment point with an exact stub notch law; quick: all sequences over "
-            "5 load levels up to length 5 + seeded random sequences (<= 14 samples, 9 levels / dyadic non-integers) incl. refinements by "
-            "non-reversal samples; junction classes are tagged and counted; non-trivial = pass 2 records at least one hysteresis; distinct by sequence")
+    RULE = ("case = load sequence (>= 2 distinct values) with an exact stub notch law; quick: all sequences over 5 load levels up to length 5 and "
+            "over 7 levels up to length 4 (thorough 6 / 5) for one assessment point + seeded random sequences (<= 14 samples, integer level sets incl. "
+            "near-ties that differ by 1e-6 relative, deeply nested families with 3-5 closures by one sample) incl. refinements by non-reversal "
+            "samples; 'multi' cases: 2-3 proportional points (factor 0 = unloaded point allowed behind the first) x six load_step label layouts "
+            "(oracle and, through C05, correspondence); 'float' cases (oracle only): dyadic non-integer loads whose ranges differ by 2**-7 .. 2**-33; "
+            "junction classes are tagged and counted; non-trivial = pass 2 records at least one hysteresis; distinct by (sequence, law) resp. "
+            "(sequence, seed) for refinements")
     ASSUMPTIONS = [
-        "loads/stresses/strains are modelled as integers: exact for the integer-valued stub laws used in the correspondence; the 1e-12 tolerances of fkm_nonlinear.py are inert on integers",
-        "the notch approximation law is a parameter of the model; correspondence uses two stub laws (linear, saturating) whose values are exact in double arithmetic; real Binned laws are covered by C05/C07/C10",
+        "loads/stresses/strains are modelled as integers: exact for the integer-valued stub laws used in the correspondence; the 1e-12 comparison tolerances of fkm_nonlinear.py are not a parameter of the model and no theorem carries a tolerance hypothesis (they are inert on integers; the oracle's float cases keep every gap >= 2**-33 >> 1e-12)",
+        "the theorems 'pass 2 = periodic rainflow' and the refinement theorems are about one assessment point; several points are covered by the C05 batch theorem for positive integer factors and otherwise tested (multi cases)",
+        "the notch approximation law is a parameter of the model; correspondence uses two stub laws (linear, saturating) whose values are exact in double arithmetic; real Binned laws are covered by C07 (look-up) and C10 (whole assessment)",
         "pandas glue of FKMNonlinearDetector/Recorder is covered by the correspondence only",
     ]
 
@@ -278,9 +283,11 @@ def junction_class(s):
 
 def junction_failure_class(s, p2=None, law="linear"):
     if not hcm.first_run_flushes(s):
-        # open known finding: the first run defers its last sample to the second run.  It is the recorded finding only if the
-        # pass-2 hystereses are exactly those the documented mechanism yields (reference procedure fed the way the code feeds
-        # its two runs, deferred sample included); anything else on such a sequence is a different failure
+        # open known finding: the first run defers its last sample to the second run.  For an integer one-point pass-2 mismatch it
+        # is the recorded finding only if the pass-2 hystereses are exactly those the documented mechanism yields (reference
+        # procedure fed the way the code feeds its two runs, deferred sample included); anything else on such a sequence is a
+        # different failure.  For multi-point, float and Memory-3-outside-pass-1 failures the class is tied to the guard alone
+        # (the bit-exact correspondence pins the behaviour there)
         if p2 is not None and all(float(x) == int(x) for x in s):
             t1, t2 = hcm.ref_feed([int(x) for x in s])
             recs, _ = hcm.ref_guideline(hcm.RefLaw(law), t1, t2)
